@@ -164,6 +164,42 @@ def main():
             nontrivial = cases
             samples = [{'code_point': '0x130', 'result': f('İ')}]
         elif fn == 'MULTIWORD' or 'MultiWordDetector' in fn:
+            # the detector's counts against an independent tally: every maximal letter run (lower-cased) of a training password whose
+            # length lies within [min_len, max_len] of the password counts once for that run if the run has at least min_len letters
+            import re as _re
+            for min_len, hist in ((4, ['my1love'] * 5 + ['ab12cdef'] * 5 + ['password'] * 5 + ['dragon7', 'x9dragon', 'Dragon', 'a1b2c3dd', 'love', 'LOVE!', 'lo-ve']
+                                       + ['i<3love', 'mylove', 'abcdef', 'toolongpasswordtoolongpasswordx', 'abc']),
+                                  (2, ['a1bc', 'a1bc', 'ab', 'b-a', 'qw1we', 'qw1we', 'Q1W', 'é2éa', 'ab3'])):
+                dm = m['multiword_detector'].MultiWordDetector(threshold=5, min_len=min_len, max_len=21)
+                tally = {}
+                for pw in hist:
+                    dm.train(pw)
+                    if min_len <= len(pw) <= 21:
+                        for run in _re.findall(r'[^\W\d_]+', pw.lower()):
+                            if len(run) >= min_len and run.isalpha():
+                                tally[run] = tally.get(run, 0) + 1
+                probes = set(tally) | {'mylove', 'love', 'abcdef', 'cdef', 'dragon', 'xdragon', 'abcdd', 'bcdd', 'dd', 'abc', 'qwwe', 'we', 'qw', 'bc', 'abc', 'éa', 'éé'}
+                for w in sorted(probes):
+                    cases += 1
+                    got = dm._get_count(w)
+                    if got != tally.get(w, 0):
+                        fail = {'function': 'MultiWordDetector.train', 'training_passwords': sorted(set(hist)), 'word': w, 'count_in_detector': got,
+                                'independent_count': tally.get(w, 0), 'why': 'the detector counts a word the training passwords do not contain that often'}
+                        break
+                if fail:
+                    break
+                nontrivial += len(tally)
+                # and what parse() does with those counts: a split only into parts seen at least threshold times
+                for s in ['mylovepassword', 'lovepassword', 'passwordlove', 'abcdefdragon', 'cdefpassword', 'passwordpassword']:
+                    cases += 1
+                    ok_multi, words = dm.parse(s)
+                    if ''.join(words) != s or (len(words) > 1 and any(tally.get(w, 0) < 5 for w in words)):
+                        fail = {'function': 'MultiWordDetector.parse', 'training_passwords': sorted(set(hist)), 'input': s, 'result': [ok_multi, words],
+                                'why': 'a part was seen fewer than threshold times in the training passwords',
+                                'independent_counts': {w: tally.get(w, 0) for w in words}}
+                        break
+                if fail:
+                    break
             det = trained_detector(m)
             for L in range(1, 9):
                 for tup in itertools.product('abw', repeat=L):
